@@ -20,7 +20,8 @@ from .. import common, corr_parse, gen, gram
 META = dict(
     text="Lean theorems (PPProofs/Props/C08.lean) hold for EVERY parse function p (so for the uncached, packrat and LR "
          "parsers), every input and option value: scan_each_is_direct_parse, scan_sorted_disjoint, scan_match_forward, "
-         "scan_max_matches (scanLoop_spec by induction on the driver loop); split_join (pieces + matched texts = parsed "
+         "scan_max_matches (scanLoop_spec by induction on the driver loop); parse_fwd / scan_match_forward_parse (the model "
+         "parser is forward-moving for every grammar, so start <= end of every reported match holds unconditionally); split_join (pieces + matched texts = parsed "
          "string, for any ordered non-overlapping forward match list), split_pieces_are_gaps, transform_spec / "
          "transform_no_match; parseAll_tokens_eq_plain, parseAll_of_plain_and_end, parseAll_fails_on_trailing_text. "
          "search_string/matches/== are definitional projections checked by the oracle. PARTIAL: 'no position skipped over "
@@ -37,7 +38,7 @@ META = dict(
 )
 
 THEOREMS = [
-    "PP.Parse.scanLoop_spec",
+    "PP.Parse.scanLoop_spec", "PP.Parse.parse_fwd", "PP.Parse.scan_match_forward_parse",
     "PP.Parse.scanString_spec",
     "PP.Parse.scan_each_is_direct_parse",
     "PP.Parse.scan_sorted_disjoint",
